@@ -7,7 +7,7 @@ import vlib
 
 MOD = "server/Worker.tla"
 TMOD = "server/WorkerTrace.tla"
-VARS = ["ReadyCheckOnce", "RestartAll", "DrainCalls", "GracefulRepliesEarly", "IgnoreTimeout", "ForcedWaits", "LifoQueue"]
+VARS = ["ReadyCheckOnce", "RestartAll", "DrainCalls", "GracefulRepliesEarly", "IgnoreTimeout", "ForcedWaits", "LifoQueue", "DrainOnlyAtStop"]
 
 
 def read_consts(cfg):
@@ -106,7 +106,7 @@ def replay_and_validate(ctx, scheds, invariants, tag, strict_sample=150):
 
 
 def run_check(ctx, *, design, edge_cfgs, negs, invariants, corpus, thorough_design=(), live=(), neg_live=(),
-              max_paths_quick=500, max_paths_thorough=8000, nontrivial=None, rule=""):
+              max_paths_quick=500, max_paths_thorough=8000, nontrivial=None, rule="", tag=None):
     vlib.cargo_build(["vsrv"])
     scheds = []
     total_edges = covered_edges = 0
@@ -153,10 +153,10 @@ def run_check(ctx, *, design, edge_cfgs, negs, invariants, corpus, thorough_desi
         for rec in vlib.read_ndjson(os.path.join(vlib.ROOT, "corpus", n)):
             rec["origin"] = "corpus/" + n
             scheds.append(rec)
-    accepted, bad, runs, strict_ok, drift = replay_and_validate(ctx, scheds, invariants, ctx.prop.lower())
+    accepted, bad, runs, strict_ok, drift = replay_and_validate(ctx, scheds, invariants, tag or ctx.prop.lower())
     ctx.cov["traces_validated_against_impl"] += accepted
-    ctx.cov["strict_mode_runs_accepted"] = strict_ok
-    ctx.cov["strict_mode_drift"] = len(drift)
+    ctx.cov["strict_mode_runs_accepted"] = ctx.cov.get("strict_mode_runs_accepted", 0) + strict_ok
+    ctx.cov["strict_mode_drift"] = ctx.cov.get("strict_mode_drift", 0) + len(drift)
     for (i, rec) in drift[:3]:
         print("DRIFT spec=Worker first-unmatched=%s (schedule from %s)" % (json.dumps(rec)[:300], scheds[i].get("origin")), flush=True)
     for (i, rec, pred) in bad:
@@ -168,9 +168,9 @@ def run_check(ctx, *, design, edge_cfgs, negs, invariants, corpus, thorough_desi
     nt = sum(1 for k, s in enumerate(scheds) if (nontrivial(s, runs[k]) if nontrivial else True))
     ctx.cov["evaluations"] += len(scheds)
     ctx.cov["distinct_nontrivial"] += nt
-    ctx.cov["rule"] = rule
-    ctx.cov["model_edges"] = total_edges
-    ctx.cov["model_edges_replayed_on_impl"] = covered_edges
+    ctx.cov["rule"] = (ctx.cov.get("rule") + " || " if ctx.cov.get("rule") else "") + rule
+    ctx.cov["model_edges"] = ctx.cov.get("model_edges", 0) + total_edges
+    ctx.cov["model_edges_replayed_on_impl"] = ctx.cov.get("model_edges_replayed_on_impl", 0) + covered_edges
     ctx.cov["exhaustive"] = True
     if scheds:
         ctx.cov["samples"].append({"schedule": scheds[0]["steps"][:30], "cfg": scheds[0]["cfg"],
